@@ -79,10 +79,12 @@ func init() {
 			if tier == "thorough" {
 				sizes = []int{0, 1, 31, 32, 33, 64, 95, 96, 128, 160, 192}
 			}
-			for shape := 0; shape < 18; shape++ {
+			for shape := 0; shape < 22; shape++ {
 				for _, n := range sizes {
 					rs = append(rs, HRun{Pkg: "./dig", Fn: "ZZ_C10_Scan", Params: []int{shape, n, 0}})
-					if n > 0 && (n <= 64 || tier == "thorough") {
+					// measured: the extra-capacity variant takes 10 min at 128-192 bytes for
+				// the nested dynamic shapes and exceeds 25 min for shape 6; registered up to 96
+				if n > 0 && (n <= 64 || (tier == "thorough" && n <= 96)) {
 						rs = append(rs, HRun{Pkg: "./dig", Fn: "ZZ_C10_Scan", Params: []int{shape, n, 32}})
 					}
 				}
@@ -90,12 +92,12 @@ func init() {
 			return rs
 		},
 		Assumptions: []string{
-			"type trees are the 18 catalogue entries of harness/dig/common.go, built by the real Event.ABIType (case-split, not solver-quantified)",
+			"type trees are the 22 catalogue entries of harness/dig/common.go, built by the real Event.ABIType (case-split, not solver-quantified)",
 			"data length and capacity are case-split; all content bytes (through the capacity) are solver-quantified, so every 32-byte word ranges over all 2^256 values including 2^63, 2^64-32, len, len-31",
 		},
 		Bounds: map[string]string{
 			"quick":    "data lengths {0,20,32,64,96} bytes, capacity = len or len+32; loop unwinding len/32+3 (exceeding it is reported, never ignored)",
-			"thorough": "data lengths {0,1,31,32,33,64,95,96,128,160,192} bytes, capacity = len or len+32",
+			"thorough": "data lengths {0,1,31,32,33,64,95,96,128,160,192} bytes with capacity = len; capacity = len+32 (bytes beyond the length must not influence the outcome) for lengths up to 96 (the larger ones ran past 25 minutes per instance for the nested dynamic shapes and are not claimed)",
 		},
 		Outside: []string{"inputs longer than the bound", "type trees outside the catalogue", "the polynomial row growth of nested dynamic arrays whose offsets alias one tail (rows are bounded by (len/32+1)^2, asserted)"},
 	})
@@ -124,7 +126,7 @@ func init() {
 					}
 				}
 			}
-			for shape := 0; shape < 18; shape++ {
+			for shape := 0; shape < 22; shape++ {
 				for _, a := range alens {
 					for _, b := range blens {
 						rs = append(rs, HRun{Pkg: "./dig", Fn: "ZZ_C09_Decode", Params: []int{shape, a, b}, Unwind: 400})
@@ -135,7 +137,7 @@ func init() {
 		},
 		Assumptions: []string{
 			"array length digits are symbolic ASCII digits without a leading zero; the number of digits is case-split",
-			"type trees are the 18 catalogue entries (harness/dig/common.go) built by the real Event.ABIType; their values (every 32-byte word, every bytes/string content) are solver-quantified, array and byte-string lengths are case-split",
+			"type trees are the 22 catalogue entries (harness/dig/common.go) built by the real Event.ABIType; their values (every 32-byte word, every bytes/string content) are solver-quantified, array and byte-string lengths are case-split",
 			"the reference ABI encoder and the reference row rule live in the harness (harness/dig/c09.go) and are compiled natively for replay",
 			"each Result is used twice with different values and lengths (repeated use of one decoder instance)",
 		},
@@ -175,6 +177,18 @@ func init() {
 					rs = append(rs, HRun{Pkg: "./dig", Fn: "ZZ_C11_Log", Params: []int{layout, t, popIdx(layout) + 1, 1}})
 				}
 			}
+			// array inputs: one row per element, element mapped by its leaf type
+			for elem := 0; elem < 6; elem++ {
+				for second := 0; second <= 1; second++ {
+					cfgs := [][2]int{{0, 1}, {0, 2}, {2, 0}}
+					if tier == "thorough" {
+						cfgs = [][2]int{{0, 1}, {0, 2}, {0, 3}, {1, 0}, {2, 0}, {3, 0}}
+					}
+					for _, c := range cfgs {
+						rs = append(rs, HRun{Pkg: "./dig", Fn: "ZZ_C11_Array", Params: []int{elem, c[0], c[1], second}})
+					}
+				}
+			}
 			for m := 0; m < 3; m++ {
 				rs = append(rs, HRun{Pkg: "./dig", Fn: "ZZ_C11_Insert", Params: []int{m}})
 			}
@@ -182,6 +196,7 @@ func init() {
 		},
 		Assumptions: []string{
 			"event layouts: 3 inputs, every combination of indexed/selected (64 layouts, case-split) and leaf types from {uint256,address,bool,bytes32,int256,uint8}; topics, log data and every block/tx/log field are solver-quantified",
+			"array inputs (ZZ_C11_Array): T[] with 1-2 (thorough 3) elements and T[2] (thorough T[1..3]) for T in {address,uint256,int256,uint8,bytes32,uint64}, alone or followed by a selected address input; data is the reference ABI encoding (harness/dig/c09.go) of symbolic elements; arrays of bool/string/bytes are NOT asserted: dbtype matches those three names exactly, so their array elements are stored as the raw 32-byte word / bytes (an observation, not claimed either way)",
 			"decimal rendering (uint256.Dec / negInt.Value) is outside: integer cells are compared as 256-bit limbs before rendering",
 			"Integration.Insert is run over blocks with two transactions / two trace actions / two logs and the rows are read when COPY drains them (values held by reference are observed when stored)",
 			"the path JSON -> client is covered by C07/C14, COPY -> stored value (pgx binary encoding, Postgres) is outside",
@@ -190,7 +205,7 @@ func init() {
 			"quick":    "64 layouts x 4 type assignments; one log per run; block-field columns block_num, log_idx, log_addr, tx_hash, abi_idx, ig_name, src_name",
 			"thorough": "64 layouts x 44 type assignments",
 		},
-		Outside: []string{"events with more than 3 inputs or with dynamic/array inputs in the column check (decoding of those is C09)", "pgx COPY encoding and Postgres storage"},
+		Outside: []string{"events with more than 3 scalar inputs; arrays of dynamic types, nested arrays and tuples in the column check (decoding of those is C09)", "pgx COPY encoding and Postgres storage"},
 	})
 	register(&PropSpec{
 		ID:   "C13",
@@ -264,6 +279,24 @@ func init() {
 					}
 				}
 			}
+			// several rows from one log: verdicts are per row
+			for op1 := 0; op1 < 4; op1++ {
+				alens := []int{2}
+				if tier == "thorough" {
+					alens = []int{1, 2, 3}
+				}
+				for _, al := range alens {
+					rs = append(rs, HRun{Pkg: "./dig", Fn: "ZZ_C12_Rows", Params: []int{op1, 0, 0, al, 0}})
+					for op2 := 0; op2 < 4; op2++ {
+						for agg := 0; agg < 4; agg++ {
+							if tier == "quick" && (op2 == 1 || agg == 3) {
+								continue
+							}
+							rs = append(rs, HRun{Pkg: "./dig", Fn: "ZZ_C12_Rows", Params: []int{op1, op2, agg, al, 1}})
+						}
+					}
+				}
+			}
 			for op2 := 0; op2 < 4; op2++ {
 				for agg := 0; agg < 4; agg++ {
 					for na := 0; na <= 2; na++ {
@@ -285,6 +318,7 @@ func init() {
 		Assumptions: []string{
 			"per-filter semantics: field values and byte-string arguments are solver-quantified (hex argument text is built from symbolic bytes); decimal arguments of integer filters are 5 (uint64) / 4 (uint256) boundary constants, the field value is a free 64/256-bit value; string arguments come from a 4-word vocabulary, the field is a symbolic string",
 			"fold and pushdown: filter arguments are concrete constants, the log's topics and address are solver-quantified; eth_getLogs is assumed to return exactly the logs whose address is in the address list (if non-empty) and whose topic0 is in topics[0] (documented JSON-RPC semantics)",
+			"rows of one log (ZZ_C12_Rows): a selected bytes32[] input with 2 (thorough 1..3) symbolic elements carrying a byte-string filter, optionally a second filter on log_addr, every aggregation; the row of element i is emitted iff the fold of element i's own verdicts accepts (identified by abi_idx), each element at most once",
 			"reference filters (filter_ref): the referenced table's content is a symbolic membership answer of the lookup (ZZ_C12_Ref); that the lookup runs on the inserting transaction is not checked here",
 		},
 		Bounds: map[string]string{
